@@ -17,6 +17,11 @@ def handle (op : String) (j : Json) : R Json := do
   | "conv.word" =>
     let w ← fldStr j "w"
     pure (obj [("atoi", optJ jint (Strconv.atoi w)), ("bool", optJ jbool (Strconv.parseBool w)), ("dur", optJ jint (Strconv.parseDuration w))])
+  | "conv.durfmt" =>
+    let d ← fldSInt j "d"
+    let s := Strconv.durString d
+    -- what mage relies on: the text parses back to the same duration
+    pure (obj [("s", jstr s), ("back", optJ jint (Strconv.parseDuration s))])
   | _ => throw s!"unknown op {op}"
 
 end Oracle.Conv
